@@ -1,3 +1,5 @@
+import G3D.Proofs.KernelsTie
+import G3D.Proofs.KernelsTieReal
 import G3D.Props.C11
 import G3D.Props.Classes
 #print axioms G3D.Props.C11.cosSq_in_range
@@ -13,3 +15,11 @@ import G3D.Props.Classes
 #print axioms G3D.Props.C11.parallel_dispatch
 #print axioms G3D.Props.C11.orthogonal_dispatch
 #print axioms G3D.Props.Classes.geobody_forwards
+#print axioms G3D.KernelsTie.orthogonal_iff
+#print axioms G3D.KernelsTie.orthogonal_shape
+#print axioms G3D.KernelsTieReal.parallel_cast
+#print axioms G3D.KernelsTieReal.parallel_shortcuts
+#print axioms G3D.KernelsTieReal.parallel_shape
+#print axioms G3D.KernelsTieReal.angle_cosSq
+#print axioms G3D.KernelsTieReal.angle_cosine_range
+#print axioms G3D.KernelsTieReal.angle_path
